@@ -147,7 +147,7 @@ type c08Handler struct {
 }
 
 func c08(run *ev.Run) int {
-	run.SetRule("negotiation cases = handler registration list x client registration list (all ordered subsets of {zz-rev,zz-xor,zz-len}, with gzip re-registered nowhere / last / in the middle) x send-compression in client set + none x client and handler compress-min in {0,1,100,1024} x message sizes {min-1,min,min+1} x 3 protocols x 2 codecs x 4 kinds (seeded sample; thorough also walks every handler-list x client-list pair); isolation histories = corrupt (bit flip, truncation, bad CRC/ISIZE/magic, trailing garbage) and valid compressed calls on shared pools, sequential with GOMAXPROCS=1 and concurrent with GC off, on the handler side and on the client side; paired history = corrupt calls whose compression header is rejected by Reset itself, then valid calls whose instrumented decompressors wait for each other inside Read (so that they own their pooled objects at the same moment); oracle = negotiation model + lossless + threshold + instrumented (de)compressor discipline + double-release table for pooled compressors/decompressors (hook) + every valid call succeeds with its own payload; distinct by (handler list, client list, send, protocol, kind, size class)")
+	run.SetRule("negotiation cases = handler registration list x client registration list (all ordered subsets of {zz-rev,Zz-Xor,zz-len}, with gzip re-registered nowhere / last / in the middle) x send-compression in client set + none x client and handler compress-min in {0,1,100,1024} x message sizes {min-1,min,min+1} x 3 protocols x 2 codecs x 4 kinds (seeded sample; thorough also walks every handler-list x client-list pair); isolation histories = corrupt (bit flip, truncation, bad CRC/ISIZE/magic, trailing garbage) and valid compressed calls on shared pools, sequential with GOMAXPROCS=1 and concurrent with GC off, on the handler side and on the client side; paired history = corrupt calls whose compression header is rejected by Reset itself, then valid calls whose instrumented decompressors wait for each other inside Read (so that they own their pooled objects at the same moment); oracle = negotiation model + lossless + threshold + instrumented (de)compressor discipline + double-release table for pooled compressors/decompressors (hook) + every valid call succeeds with its own payload; distinct by (handler list, client list, send, protocol, kind, size class)")
 	stats := map[string]*svc.AlgoStats{}
 	for _, n := range svc.AlgoNames {
 		stats[n] = &svc.AlgoStats{}
@@ -699,7 +699,7 @@ func c08Isolation(run *ev.Run) {
 // the object's ownership flag reports it - deterministically, not by waiting
 // for corrupted bytes to show up.
 func c08Paired(run *ev.Run) {
-	const algo = "zz-xor"
+	const algo = "Zz-Xor"
 	stats := &svc.AlgoStats{Pair: 1}
 	nd, nc := svc.Algo(algo, stats)
 	reg := svc.NewRegistry()
